@@ -1483,6 +1483,7 @@ func (ex *Exec) step(st *State, b *ssa.BasicBlock, i int, in ssa.Instruction) bo
 		v := ex.value(st, in.Value)
 		mt := in.Map.Type().Underlying().(*types.Map)
 		ex.safe(st, in, "nilmap", mkNot(mkEq(m.T, tZero)), "assignment to entry in nil map")
+		ex.lockCheck(st, in, m, true)
 		ex.mapStore(st, mt, m.T, k.T, v)
 		return true
 	case *ssa.Range:
@@ -1538,7 +1539,23 @@ func (ex *Exec) stepUnOp(st *State, in *ssa.UnOp) bool {
 	switch in.Op {
 	case token.MUL: // load
 		if x.Addr != nil {
-			fr.vals[in] = ex.loadAddr(st, x.Addr)
+			v := ex.loadAddr(st, x.Addr)
+			if lockField, ok := ex.ct.Guards[x.Addr.Key]; ok && x.Addr.Kind == aField {
+				if fa, ok := in.X.(*ssa.FieldAddr); ok {
+					stT := deref(fa.X.Type())
+					if s, ok := structOf(stT); ok {
+						for k := 0; k < s.NumFields(); k++ {
+							if s.Field(k).Name() == lockField {
+								lk := mkSelect(st.comp(fieldKey(stT, k), ex.fieldSort(s.Field(k).Type())), x.Addr.Base)
+								nv := *v
+								nv.Guard = &lk
+								v = &nv
+							}
+						}
+					}
+				}
+			}
+			fr.vals[in] = v
 			return true
 		}
 		t := deref(in.X.Type())
@@ -1813,6 +1830,7 @@ func (ex *Exec) lookup(st *State, in *ssa.Lookup) *Val {
 		return scalar(ex.define(st, "byte", app(SInt, "str.to_code", app(SString, "str.at", x.T, k.T))), in.Type())
 	}
 	mt := in.X.Type().Underlying().(*types.Map)
+	ex.lockCheck(st, in, x, false)
 	has, v := ex.mapLoad(st, st, mt, x.T, k.T)
 	hasD := ex.define(st, "has", has)
 	var val *Val
@@ -1873,6 +1891,23 @@ func (ex *Exec) mapLen(st *State, hv HeapView, mt *types.Map, m Term) Term {
 	_, _, ck := mapKeys(mt)
 	card := hv.comp(ck, arraySort(SInt, SInt))
 	return mkSelect(card, m)
+}
+
+// lockCheck: access to a map read from a guarded field needs the guarding lock (ghost held state).
+func (ex *Exec) lockCheck(st *State, in ssa.Instruction, m *Val, write bool) {
+	if m.Guard == nil {
+		return
+	}
+	g, ok := ex.ct.Ghosts["held"]
+	if !ok {
+		return
+	}
+	held := mkSelect(st.comp("G:held", ex.ghostSort(g, ex.topFn.Pkg.Pkg)), *m.Guard)
+	if write {
+		ex.oblige(st, "lock", "write@"+ex.instrLabel(in), mkEq(held, intLit(2)), ex.top.Tags, "write to a lock-guarded map needs the exclusive lock", in.Pos())
+	} else {
+		ex.oblige(st, "lock", "read@"+ex.instrLabel(in), app(SBool, ">=", held, tOne), ex.top.Tags, "read of a lock-guarded map needs the lock", in.Pos())
+	}
 }
 
 // doReturn: return from the current frame.
